@@ -4,9 +4,10 @@ package main
 // the real imap/command.Parser against the Lean model GluonModel/Model/Parse/*.lean.
 //
 //	op:      parse <seed> <hex input> <expected AST | ?>
-//	result:  ok <tag>:<payload> conts=<n> used=<n>
-//	         err parse <Token.TType of the *rfcparser.Error> used=<n>
-//	         err litzero|litbig|ioeof|other used=<n>      (errors that are NOT *rfcparser.Error)
+//	result:  ok <tag>:<payload> conts=<n> used=<n> cmd=<LastParsedCommand>
+//	         err parse <Token.TType of the *rfcparser.Error> used=<n> tag=<LastParsedTag> cmd=<LastParsedCommand>
+//	             skip=<ok|eof> used2=<n>                  (after ConsumeInvalidInput, as the session does)
+//	         err ioeof|other used=<n>                     (errors that are NOT *rfcparser.Error; ioeof = input ended in a literal)
 //	         hang                                          (parser keeps reading at end of input)
 //	         panic <text>
 //
@@ -34,6 +35,7 @@ import (
 func init() {
 	Register(&Dialect{Name: "parse", Impl: implParse, Gen: genParseValid})
 	Register(&Dialect{Name: "parsebad", Impl: implParse, Gen: genParseBad})
+	Register(&Dialect{Name: "parsen", Impl: implParseN, Gen: genParseN})
 }
 
 type hangSentinel struct{ why string }
@@ -416,17 +418,20 @@ func runRealParser(data []byte, seed uint64) (out string) {
 		var perr *rfcparser.Error
 		switch {
 		case errors.As(err, &perr):
-			return fmt.Sprintf("err parse %d used=%d", int(perr.Token.TType), used)
+			tag, lc := parser.LastParsedTag(), parser.LastParsedCommand()
+			skip, used2 := "ok", 0
+			if err2 := parser.ConsumeInvalidInput(); err2 != nil {
+				skip, used2 = "eof", len(data) // InputCollector does not record a failed ReadBytes
+			} else {
+				used2 = len(collector.Bytes())
+			}
+			return fmt.Sprintf("err parse %d used=%d tag=%s cmd=%s skip=%s used2=%d", int(perr.Token.TType), used, hexS(tag), hexS(lc), skip, used2)
 		case errors.Is(err, io.EOF):
 			return fmt.Sprintf("err ioeof used=%d", used)
-		case strings.Contains(err.Error(), "invalid literal size"):
-			return fmt.Sprintf("err litzero used=%d", used)
-		case strings.Contains(err.Error(), "literal size exceeds"):
-			return fmt.Sprintf("err litbig used=%d", used)
 		}
 		return fmt.Sprintf("err other used=%d", used)
 	}
-	return fmt.Sprintf("ok %s:%s conts=%d used=%d", hexS(cmd.Tag), showPayloadImpl(cmd.Payload), conts, used)
+	return fmt.Sprintf("ok %s:%s conts=%d used=%d cmd=%s", hexS(cmd.Tag), showPayloadImpl(cmd.Payload), conts, used, hexS(parser.LastParsedCommand()))
 }
 
 func implParse(args []string) string {
@@ -445,4 +450,77 @@ func implParse(args []string) string {
 		}
 	}
 	return runRealParser(data, seed)
+}
+
+// runRealParserN: the reader loop of internal/session/command.go startCommandReader on one parser: Parse;
+// on a parser error that is not EOF, ConsumeInvalidInput and carry on; any other error ends the loop.
+func runRealParserN(data []byte, seed uint64) (out string) {
+	src := &chunkReader{data: data, rng: NewRng(seed)}
+	collector := command.NewInputCollector(bufio.NewReader(src))
+	scanner := rfcparser.NewScannerWithReader(collector)
+	parser := command.NewParserWithLiteralContinuationCb(scanner, func() error { return nil })
+	timer := time.AfterFunc(20*time.Second, func() { src.kill.Store(true) })
+	defer timer.Stop()
+	var parts []string
+	defer func() {
+		if p := recover(); p != nil {
+			if _, ok := p.(hangSentinel); ok {
+				parts = append(parts, "hang")
+			} else {
+				parts = append(parts, "panic")
+			}
+			out = strings.Join(parts, "|")
+		}
+	}()
+	total := 0
+	for i := 0; i < 8; i++ {
+		collector.Reset()
+		cmd, err := parser.Parse()
+		total += len(collector.Bytes())
+		if err != nil {
+			var perr *rfcparser.Error
+			if !errors.As(err, &perr) {
+				kind := "other"
+				if errors.Is(err, io.EOF) {
+					kind = "ioeof"
+				}
+				parts = append(parts, fmt.Sprintf("err %s used=%d exit", kind, total))
+				return strings.Join(parts, "|")
+			}
+			head := fmt.Sprintf("err parse %d used=%d tag=%s cmd=%s", int(perr.Token.TType), total, hexS(parser.LastParsedTag()), hexS(parser.LastParsedCommand()))
+			if perr.IsEOF() {
+				parts = append(parts, head+" exit")
+				return strings.Join(parts, "|")
+			}
+			collector.Reset()
+			if err2 := parser.ConsumeInvalidInput(); err2 != nil {
+				parts = append(parts, head+" skip=eof")
+				return strings.Join(parts, "|")
+			}
+			total += len(collector.Bytes())
+			parts = append(parts, head+" skip=ok")
+			continue
+		}
+		parts = append(parts, fmt.Sprintf("ok %s:%s used=%d", hexS(cmd.Tag), showPayloadImpl(cmd.Payload), total))
+	}
+	parts = append(parts, "more")
+	return strings.Join(parts, "|")
+}
+
+func implParseN(args []string) string {
+	if len(args) < 2 {
+		return "bad-op"
+	}
+	seed, err := strconv.ParseUint(args[0], 10, 64)
+	if err != nil {
+		return "bad-op"
+	}
+	var data []byte
+	if args[1] != "~" && args[1] != "-" {
+		data, err = hex.DecodeString(args[1])
+		if err != nil {
+			return "bad-op"
+		}
+	}
+	return runRealParserN(data, seed)
 }
